@@ -110,7 +110,11 @@ func genPrograms(r *Rand, g *Gen, np int, allowFail bool, entries []string) []Op
 		if allowFail && r.Chance(25) {
 			body, _ = g.FailingBody(1+r.Intn(3), fmt.Sprintf("p%d", p))
 		} else {
-			body = g.body(2+r.Intn(5), fmt.Sprintf("p%d", p))
+			nsn := 2 + r.Intn(5)
+			if r.Chance(4) {
+				nsn = 20 + r.Intn(40) // a long document: buffers beyond their initial capacity, many top-level nodes
+			}
+			body = g.body(nsn, fmt.Sprintf("p%d", p))
 		}
 		fm := map[string]string{}
 		if g.on("frontmatter") {
@@ -138,9 +142,17 @@ func genC10(seed uint64, run int, tier string) *RunSpec {
 	r := NewRand(seed, run)
 	g := NewGen(r)
 	spec := &RunSpec{Property: "C10", Family: "c10-history", Seed: seed, Run: run}
-	cat := genPrograms(r, g, 1+r.Intn(3), true, append(append(append([]string{}, Entries...), BaseEntries...), AssignEntries...))
+	npages := 1 + r.Intn(3)
+	manyFiles := r.Chance(4)
+	if manyFiles {
+		npages = 6 + r.Intn(8) // more files than a small bounded cache would hold
+	}
+	cat := genPrograms(r, g, npages, true, append(append(append([]string{}, Entries...), BaseEntries...), AssignEntries...))
 	// distinct operations (program x entry x data), each with its own tag
 	nd := 2 + r.Intn(4)
+	if manyFiles {
+		nd = 8 + r.Intn(8)
+	}
 	var distinct []OpSpec
 	for i := 0; i < nd; i++ {
 		op := Pick(r, cat)
@@ -150,6 +162,9 @@ func genC10(seed uint64, run int, tier string) *RunSpec {
 	n := 2 + r.Intn(10)
 	if tier == "thorough" {
 		n = 2 + r.Intn(14)
+	}
+	if manyFiles {
+		n += 12
 	}
 	for i := 0; i < n; i++ {
 		spec.Ops = append(spec.Ops, distinct[r.Intn(len(distinct))])
@@ -277,13 +292,13 @@ func execC10(spec *RunSpec) *Result {
 		}
 		what := fmt.Sprintf("op %d (%s %s data=%s/%s)", i, op.Entry, op.File, op.Data.Shape, op.Data.Tag)
 		// 1. fresh-engine equality
-		if !sameResult(o, ref) && mism < 0 {
+		if !sameOutput(o, ref) && mism < 0 {
 			mism = i
 		}
 		// 2. repeat equality
 		if j, seen := firstSeen[key]; seen {
 			res.addStat("repeats", 1)
-			if !sameResult(o, outs[j]) {
+			if !sameOutput(o, outs[j]) {
 				res.violate("C10", "repeat-differs", "repeat of the same operation differs", "%s differs from its first execution at op %d:\n  first: %s\n  now:   %s", what, j, outs[j], o)
 			}
 		} else {
@@ -329,7 +344,7 @@ func execC10(spec *RunSpec) *Result {
 				if spec.Ops[i].Kind != "render" && spec.Ops[i].Kind != "" {
 					continue
 				}
-				if !sameResult(again[i], outs[i]) {
+				if !sameOutput(again[i], outs[i]) {
 					probe := cloneSpec(spec)
 					probe.Probe = true
 					res.violateSpec(probe, "C10", "nondeterministic-output", "identical executions of one history give different bytes",
@@ -393,7 +408,7 @@ func dedup(s []string) []string {
 func attributeC10(spec *RunSpec, i int, ref Outcome, mapSites []int) (string, string) {
 	differs := func(cfg simrt.Config) bool {
 		outs, _, _ := runHistory(spec, cfg)
-		return !sameResult(outs[i], ref)
+		return !sameOutput(outs[i], ref)
 	}
 	cfg := spec.Kernel
 	// map order?
@@ -428,13 +443,13 @@ func attributeC10(spec *RunSpec, i int, ref Outcome, mapSites []int) (string, st
 	single := cloneSpec(spec)
 	single.Ops = []OpSpec{spec.Ops[i]}
 	outs, _, _ := runHistory(single, cfg)
-	if !sameResult(outs[0], ref) {
+	if !sameOutput(outs[0], ref) {
 		c = cfg
 		c.Map = simrt.MapSpec{Order: "asc"}
 		c.Clock = simrt.ClockSpec{TickNs: 1000}
 		c.Pool = simrt.PoolSpec{Mode: "fresh"}
 		outs, _, _ = runHistory(single, c)
-		if sameResult(outs[0], ref) {
+		if sameOutput(outs[0], ref) {
 			return "a combination of map order, clock and pool policy", "output depends on simulator policy (combined)"
 		}
 		return "engine construction options (path cache fill)", "output depends on path cache fill"
